@@ -218,7 +218,7 @@ func (ctx *Ctx) frameObligation(vc *VC, fr *Frame, fc *FuncContract, exit *State
 	// ghost variables not listed under assigns keep their value
 	assigned := map[string]bool{}
 	for _, g := range fc.Assigns {
-		assigned[g] = true
+		assigned[fc.PkgPath+"::"+g] = true
 	}
 	var gk []string
 	for k := range exit.ghost {
